@@ -450,6 +450,7 @@ BODY_PINS = [
     ('gradient', 'infidelity_derivative', 'pinInfidelityDerivative'),
     ('numeric', 'error_transfer_matrix', 'pinErrorTransferMatrix'),
     ('numeric', 'calculate_frequency_shifts', 'pinFrequencyShifts'),
+    ('numeric', '_get_integrand', 'pinGetIntegrand'),
     ('pulse_sequence', 'PulseSequence.propagator_at_arb_t', 'pinPropagatorAtArbT'),
     ('analytic', 'FID', 'pinFID'), ('analytic', 'SE', 'pinSE'), ('analytic', 'PDD', 'pinPDD'),
     ('analytic', 'CPMG', 'pinCPMG'), ('analytic', 'CDD', 'pinCDD'), ('analytic', 'UDD', 'pinUDD'),
